@@ -80,7 +80,7 @@ def part(prop, out, with_render=False):
         # "a non-list where a list is required fails" rests on every list level of the type expression reaching the generated
         # type: the two type-reference kernels (SDL AST, introspection TypeRef chain), counterexamples replayed as payloads
         depth = 4 if vc.tier() == 'quick' else 6
-        for c in K.k_resolve_field_type(R, depth) + K.k_from_json_type(R, depth):
+        for c in K.k_resolve_field_type(R, depth) + K.k_from_json_type(R, depth) + K.k_decorate_type(R, depth + 1):
             ql = c['qualifiers']
             if not any(a == 'R' and b == 'R' for a, b in zip(ql, ql[1:])):
                 cands.append(dict(kernel='nesting:' + c['kernel'], prop=prop, what='nesting:' + c['kernel'], model=dict(qualifiers=ql, via='json' if c['kernel'] == 'from_json_type_inner' else 'sdl')))
@@ -220,7 +220,25 @@ def confirm_nesting(C, model):
     for p_, (st, val) in zip(bad, res):
         if st == 'ok':
             return False, f'`f: {expr}` ({via}): the payload {json.dumps(p_)} with a scalar where a list is required is accepted as {json.dumps(val)}', rp
-    return True, 'non-lists rejected', rp
+    # null at a non-null level (outer value, some list's items, the named type) must be rejected as well
+    levels, pending = [], False
+    for q in ql:
+        if q == 'R':
+            pending = True
+        else:
+            levels.append(pending)
+            pending = False
+    levels.append(pending)          # the named type itself
+
+    def with_null(at, k=0):
+        if k == at:
+            return None
+        return [with_null(at, k + 1)] if k < len(levels) - 1 else 7
+    nulls = [{'f': with_null(at), 'g': 1} for at, nonnull in enumerate(levels) if nonnull]
+    for p_, (st, val) in zip(nulls, C.run('response', nulls)):
+        if st == 'ok':
+            return False, f'`f: {expr}` ({via}): the payload {json.dumps(p_)} with null at a non-null position is accepted as {json.dumps(val)}', rp
+    return True, 'non-lists and misplaced nulls rejected', rp
 
 
 def confirm_required(C, model):
